@@ -93,13 +93,11 @@ def replace(d, old, new, start=None, end=None, count=None, ba=False):
 
 # ---------------- mutators ----------------
 def insert(d, b, pos):
-    if not b: return d
     if pos < 0: pos += len(d)
     if not 0 <= pos <= len(d): raise RefErr('ValueError')
     return d[:pos] + b + d[pos:]
 
 def overwrite(d, b, pos):
-    if not b: return d
     if pos < 0: pos += len(d)
     if not 0 <= pos <= len(d): raise RefErr('ValueError')
     return d[:pos] + b + d[pos + len(b):]
